@@ -18,6 +18,18 @@ CHECKS = {
   note="Bounded as C01. The xq/xe callers' rest-is-empty test is not part of this check. Trusted base as C01.",
   design="3/C02"),
 
+ "C03": dict(
+  technique="SMT (z3 QF_BV) over the S-grammar encoding of xml_parser::document and its work semantics (saturating entry counters); panic/reject arms of info read from source and mapped to grammar sites; witnesses replayed (from_raw under catch_unwind, gdb breakpoint hit counts)",
+  category="model_checking",
+  text="For every input of <= N scalar values (N=10 quick / 14 thorough) and for 8/12-character holes inside <!ELEMENT a ..>, an internal subset, an attribute value and element content, z3 decides (a) no accepted input selects a parse-model variant whose arm in info/src/lib.rs is unimplemented!/todo!/panic!, (b) every variant whose arm returns Err is refused by the real code with an error and no panic (one witness per arm replayed), (c) no production is entered more than 8 times at one input position (the signature of exponential re-parsing, e.g. nested content-model groups).",
+  note="Partial: stack exhaustion by deep nesting, the Display/IndentedDisplay printers, cyclic entity expansion and panics that need a live item graph (RefCell borrows, DOM unwraps) are outside; panic macros outside parser-variant arms are listed in the evidence, not decided. Entry-count model validated against gdb hit counts on every run.",
+  design="3/C03"),
+ "C06": dict(
+  technique="SMT (z3 QF_BV) over the S-grammar encoding of xml_xpath::expr::parse and its work semantics; panic/reject arms of the evaluator read from source and mapped to grammar sites; witnesses replayed (query under catch_unwind, gdb hit counts)",
+  category="model_checking",
+  text="For every expression string of <= N scalar values (N=6 quick / 8 thorough) and 3/4-character holes inside nested parentheses, function calls and predicates, z3 decides (a) no accepted expression selects an expr-model variant whose evaluator arm is unimplemented!/todo!/panic!, (b) variants whose arm returns Err do not panic on the real code, (c) no production is entered more than 8 times at one position (no exponential re-parsing of parenthesised / nested expressions).",
+  note="Partial: evaluation over a live document (parent of root/attribute, id(), sibling navigation) and the scalar functions' panic freedom are outside this check. Bounded lengths are small because every unsat verdict on the 12-level XPath grammar is expensive.",
+  design="3/C06"),
  "C18": dict(
   technique="SMT (z3 QF_BV) over char predicates and name productions read from source, every scalar value / every string <= N; Kani/CBMC on the compiled classifiers over the whole char domain; counterexamples replayed",
   category="model_checking",
@@ -36,7 +48,7 @@ m = {
  "hooks": {"guard": "cargo feature `verif` of xml-info (no hook commit exists yet)", "enable": "path dependency with features=[\"verif\"]",
            "baseline_off_cmd": "cd /repo && cargo test --workspace --no-fail-fast --offline", "source_commits": [], "add_only": True},
  "engines": [
-  {"name": "S-grammar", "path": "engine/sx/nomsem.py", "serves_properties": ["C01", "C02", "C18"], "kind_free_text": "symbolic executor for the nom grammars read from /repo via engine/srcdump (syn); z3 QF_BV"},
+  {"name": "S-grammar", "path": "engine/sx/nomsem.py", "serves_properties": ["C01", "C02", "C03", "C06", "C18"], "kind_free_text": "symbolic executor for the nom grammars read from /repo via engine/srcdump (syn); z3 QF_BV"},
   {"name": "Kani", "path": "kani/", "serves_properties": ["C18"], "kind_free_text": "Kani 0.68 / CBMC 6.11 harness crate with path dependencies on /repo crates"},
   {"name": "replay", "path": "replay/", "serves_properties": ["C01", "C02"], "kind_free_text": "Rust driver with path dependencies on /repo crates: replays solver models and validates the translator"},
  ],
